@@ -67,7 +67,7 @@ def tol_of(fstar):
 def common_a(prob, who):
     pt, val = bench.declared(prob)
     got = bench.real_eval(prob, pt)
-    if abs(got - val) > 1e-4:
+    if not (abs(got - val) <= 1e-4):            # written so that a NaN objective fails too
         fail(who + "objective at the declared optimum point %r is %r but the declared value is %r" % (pt, got, val))
     return pt, val
 
@@ -78,6 +78,8 @@ def report_lower(prob, who, y, val):
     lo, hi = bench.bounds(prob)
     y = [min(max(v, a), b) for v, a, b in zip(y, lo, hi)]
     got = bench.real_eval(prob, y)
+    if got != got:
+        fail(who + "the objective is NaN at the box point %r" % (y,))
     if got < val - tol_of(val):
         fail(who + "point %r has value %r, lower than the declared optimum value %r by more than %g" %
              (y, got, val, tol_of(val)))
